@@ -139,7 +139,8 @@ int cp_sokdl_ver(const bn_t c, const bn_t s, const uint8_t *msg, size_t len,
 		bn_read_bin(v, h, RLC_MD_LEN);
 		bn_mod(v, v, n);
 
-		if (bn_cmp(v, c) == RLC_EQ) {
+		if (bn_cmp(v, c) == RLC_EQ && bn_sign(s) == RLC_POS &&
+				bn_cmp(s, n) == RLC_LT) {
 			result = 1;
 		}
 	}
@@ -316,7 +317,16 @@ int cp_sokor_ver(const bn_t c[2], const bn_t s[2], const uint8_t *msg,
 		bn_sub(z, z, c[1]);
 		bn_mod(z, z, n);
 
-		if (bn_is_zero(z)) {
+		/* Challenges and responses must be reduced modulo the order. */
+		int range = 1;
+		for (int i = 0; i < 2; i++) {
+			if (bn_sign(c[i]) == RLC_NEG || bn_cmp(c[i], n) != RLC_LT ||
+					bn_sign(s[i]) == RLC_NEG || bn_cmp(s[i], n) != RLC_LT) {
+				range = 0;
+			}
+		}
+
+		if (range && bn_is_zero(z)) {
 			result = 1;
 		}
 	}
